@@ -68,6 +68,12 @@ func VH_C08_Protocol() {
 	st := vhStore("dir")
 	conf := vhConf(st)
 	s := New(conf)
+	// blobs equal to what some completions will produce already exist (completing a
+	// session whose content is already stored must end the session like any other)
+	if vh.Param("PRESTORED", 1) == 1 {
+		vhPushBlob(s, "a", []byte("xy"))
+		vhPushBlob(s, "b", []byte("y"))
+	}
 	// prefix: s1 in a holding "x", s2 in b (empty), s3 in a created by a failed mount
 	sess := []*vhSess{}
 	r := vhDo(s, "POST", "/v2/a/blobs/uploads/", nil, nil, nil)
@@ -85,6 +91,10 @@ func VH_C08_Protocol() {
 		sess = append(sess, &vhSess{id: vhSessionID(r), repo: "a", alive: true, mount: true})
 	}
 	stored := map[string][]byte{} // repo/digest -> bytes acknowledged
+	if vh.Param("PRESTORED", 1) == 1 {
+		stored["a/"+digest.Canonical.FromBytes([]byte("xy")).String()] = []byte("xy")
+		stored["b/"+digest.Canonical.FromBytes([]byte("y")).String()] = []byte("y")
+	}
 	steps := vh.Param("K", 2)
 	for k := 0; k < steps; k++ {
 		method := []string{"PATCH", "PUT", "GET", "DELETE"}[vh.Choice("method", 4)]
